@@ -2,7 +2,7 @@ SPECIFICATION Spec
 CONSTANTS
   M = 8
   MaxLines = 4
-  PostErr = 0
+  PostErr = 1
   Drift = 6
   Future = 4
   Alpha = "core"
